@@ -81,6 +81,8 @@ fn universe_types(name: &str) -> Vec<Ty> {
     for part in name.split('+') {
         if part == "wide" {
             out.extend(wide_types());
+        } else if part == "split" {
+            // dev: only the split-interfaces world (added by run_universe)
         } else if part == "heaplists" {
             out.extend(heap_element_lists());
         } else {
